@@ -8,6 +8,9 @@ import PsVerif.Lemmas.GramAlg
 import PsVerif.Model.Recon
 import Mathlib.LinearAlgebra.Matrix.NonsingularInverse
 import PsVerif.Lemmas.RankLink
+import PsVerif.Lemmas.RankLinkFull
+import Mathlib.LinearAlgebra.Matrix.Rank
+import Mathlib.Tactic.FinCases
 namespace PsVerif
 open Matrix
 
@@ -103,5 +106,120 @@ theorem qr_picks_nonzero_of_rank (B : RMat) (m : Nat) (hB : B.WF B.size m) (r : 
     let picks := (greedyRun (fun _ => 0) noMask B j).p.toList.take j
     mgsResid (B.vec m) picks q ⬝ᵥ mgsResid (B.vec m) picks q ≠ 0 :=
   full_rank_picks_nonzero B m hB r hr j hj hjn q hq
+
+/-- **C02 (default QR optimizer, one run).** The first `r ≤ rank B` sensors ranked by ONE default exact run of
+`k ≥ r` steps (the code makes `k = min(n, m)`; see `qrModel_leading_rows_independent`) have linearly independent
+rows. -/
+theorem qr_leading_independent (B : RMat) (m : Nat) (hB : B.WF B.size m) (r : Nat)
+    (hr : r ≤ Module.finrank ℚ (Submodule.span ℚ (Set.range fun a : Fin B.size => B.vec m a)))
+    (hrn : r ≤ B.size) (k : Nat) (hrk : r ≤ k) :
+    let picks := (greedyRun (fun _ => 0) noMask B k).p.toList.take r
+    LinearIndependent ℚ (fun i : Fin picks.length => B.vec m picks[i]) :=
+  qr_leading_rows_independent_of_le B m hB r hr hrn k hrk
+
+/-- **C02 (default QR optimizer needs no further assumption), end to end.** `B` an `n × m` basis matrix of rank
+≥ `m` (full column rank), `Bm` the same matrix as a Mathlib matrix, `σ` any list of `p ≥ m` sensors whose first `m`
+entries are the first `m` entries of the default ranking (ONE exact run of `k ≥ m` steps; `qrSensors` is such a `σ`,
+see `qr_default_recon_exact_run`).  Then the selected rows have full column rank, so the least-squares
+reconstruction (normal equations) – and the square solve – of every in-span signal `Bm a` from its values at the
+sensors is `Bm a` itself. -/
+theorem qr_default_recon_exact (B : RMat) (m : Nat) (hB : B.WF B.size m)
+    (hr : m ≤ Module.finrank ℚ (Submodule.span ℚ (Set.range fun a : Fin B.size => B.vec m a)))
+    (k : Nat) (hk : m ≤ k) (p : Nat) (hmp : m ≤ p) (σ : Fin p → Fin B.size)
+    (hσ : ∀ i (hi : i < m),
+      (greedyRun (fun _ => 0) noMask B k).p[i]? = some (σ ⟨i, Nat.lt_of_lt_of_le hi hmp⟩).val) :
+    let Bm : Matrix (Fin B.size) (Fin m) ℚ := fun a j => B.vec m a j
+    Function.Injective (Bm.submatrix σ id).mulVec ∧
+      (∀ a c : Fin m → ℚ, NormalEq (Bm.submatrix σ id) ((Bm.submatrix σ id) *ᵥ a) c → Bm *ᵥ c = Bm *ᵥ a) ∧
+      (∀ a c : Fin m → ℚ, (Bm.submatrix σ id) *ᵥ c = (Bm.submatrix σ id) *ᵥ a → Bm *ᵥ c = Bm *ᵥ a) := by
+  intro Bm
+  have hmn : m ≤ B.size := by
+    have h2 := finrank_range_le_card (R := ℚ) (fun a : Fin B.size => B.vec m a)
+    rw [Fintype.card_fin] at h2
+    exact hr.trans h2
+  have hli : LinearIndependent ℚ (fun i : Fin m => Bm (σ (Fin.castLE hmp i))) :=
+    qr_leading_rows_independent_fn B m hB m hr hmn k hk (fun i => (σ (Fin.castLE hmp i)).val)
+      (fun i => hσ i.val i.2)
+  have h0 := independent_rows_injective Bm (fun i => σ (Fin.castLE hmp i)) hli
+  have hinj := more_sensors_injective Bm (fun i => σ (Fin.castLE hmp i)) σ (Fin.castLE hmp) (fun _ => rfl) h0
+  exact ⟨hinj, fun a c h => recon_exact Bm σ hinj a c h, fun a c h => recon_exact_square Bm σ hinj a c h⟩
+
+/-- **C02, end to end, for the ranking the default optimizer returns.** `σ = qrSensors B (kOf B) p` = the first
+`p` entries (`m ≤ p ≤ n`) of `qrModel B`, the exact default run of `min(n, m)` steps: the hypothesis on `σ` of
+`qr_default_recon_exact` is satisfied, the sensors are distinct, and reconstruction of in-span signals is exact. -/
+theorem qr_default_recon_exact_run (B : RMat) (m : Nat) (hB : B.WF B.size m)
+    (hr : m ≤ Module.finrank ℚ (Submodule.span ℚ (Set.range fun a : Fin B.size => B.vec m a)))
+    (p : Nat) (hmp : m ≤ p) (hpn : p ≤ B.size) :
+    let Bm : Matrix (Fin B.size) (Fin m) ℚ := fun a j => B.vec m a j
+    let σ : Fin p → Fin B.size := qrSensors B (kOf B) p hpn
+    (∀ i : Fin p, (qrModel B)[i.val]? = some (σ i).val) ∧ Function.Injective σ ∧
+      Function.Injective (Bm.submatrix σ id).mulVec ∧
+      (∀ a c : Fin m → ℚ, NormalEq (Bm.submatrix σ id) ((Bm.submatrix σ id) *ᵥ a) c → Bm *ᵥ c = Bm *ᵥ a) ∧
+      (∀ a c : Fin m → ℚ, (Bm.submatrix σ id) *ᵥ c = (Bm.submatrix σ id) *ᵥ a → Bm *ᵥ c = Bm *ᵥ a) := by
+  intro Bm σ
+  have hspec : ∀ i (hi : i < p), (greedyRun (fun _ => 0) noMask B (kOf B)).p[i]? = some (σ ⟨i, hi⟩).val :=
+    fun i hi => qrSensors_spec B (kOf B) p hpn i hi
+  refine ⟨fun i => ?_, qrSensors_injective B (kOf B) p hpn, ?_⟩
+  · unfold qrModel
+    rw [Array.getElem?_toList]
+    exact hspec i.val i.2
+  · exact qr_default_recon_exact B m hB hr (kOf B) (le_kOf B m hB (le_trans hmp hpn)) p hmp σ
+      (fun i hi => hspec i (Nat.lt_of_lt_of_le hi hmp))
+
+/-- a matrix with independent columns (`mulVec` injective, full column rank `m`) has row space of dimension `m` -/
+theorem finrank_rowspace_of_mulVec_injective (M : Matrix (Fin n) (Fin m) ℚ)
+    (hinj : Function.Injective M.mulVec) :
+    m ≤ Module.finrank ℚ (Submodule.span ℚ (Set.range M.row)) := by
+  rw [← Matrix.rank_eq_finrank_span_row]
+  unfold Matrix.rank
+  rw [LinearMap.finrank_range_of_inj (by rw [Matrix.coe_mulVecLin]; exact hinj)]
+  simp
+
+/-- the rank hypothesis in Mathlib's terms: a basis matrix with independent columns (`Bm.mulVec` injective, full
+column rank) has row space of dimension `m` -/
+theorem finrank_rows_of_mulVec_injective (B : RMat) (m : Nat)
+    (hinj : Function.Injective (Matrix.mulVec (fun a j => B.vec m a j : Matrix (Fin B.size) (Fin m) ℚ))) :
+    m ≤ Module.finrank ℚ (Submodule.span ℚ (Set.range fun a : Fin B.size => B.vec m a)) :=
+  finrank_rowspace_of_mulVec_injective (Matrix.of fun a j => B.vec m a j) hinj
+
+/-- **C02, end to end, hypothesis = "the basis matrix has independent columns".** -/
+theorem qr_default_recon_exact_of_injective (B : RMat) (m : Nat) (hB : B.WF B.size m)
+    (hcol : Function.Injective (Matrix.mulVec (fun a j => B.vec m a j : Matrix (Fin B.size) (Fin m) ℚ)))
+    (p : Nat) (hmp : m ≤ p) (hpn : p ≤ B.size) :
+    let Bm : Matrix (Fin B.size) (Fin m) ℚ := fun a j => B.vec m a j
+    let σ : Fin p → Fin B.size := qrSensors B (kOf B) p hpn
+    Function.Injective (Bm.submatrix σ id).mulVec ∧
+      ∀ a c : Fin m → ℚ, NormalEq (Bm.submatrix σ id) ((Bm.submatrix σ id) *ᵥ a) c → Bm *ᵥ c = Bm *ᵥ a := by
+  intro Bm σ
+  have h := qr_default_recon_exact_run B m hB (finrank_rows_of_mulVec_injective B m hcol) p hmp hpn
+  exact ⟨h.2.2.1, h.2.2.2.1⟩
+
+/-- a concrete 3 × 2 basis matrix for the non-vacuity check below -/
+def c02ExampleBasis : RMat := #[#[1, 0], #[0, 2], #[3, 1]]
+
+/-- non-vacuity: `c02ExampleBasis` meets every hypothesis of `qr_default_recon_exact_run` (well formed, independent
+columns hence rank ≥ 2); its default ranking is `[2, 1, 0]`, the two leading sensors are `2, 1`, and they reconstruct
+every in-span signal exactly -/
+example :
+    let B := c02ExampleBasis
+    let Bm : Matrix (Fin B.size) (Fin 2) ℚ := fun a j => B.vec 2 a j
+    let σ : Fin 2 → Fin B.size := qrSensors B (kOf B) 2 (by decide)
+    qrModel B = [2, 1, 0] ∧ (∀ i : Fin 2, (σ i).val = [2, 1].getD i.val 0) ∧
+      ∀ a c : Fin 2 → ℚ, NormalEq (Bm.submatrix σ id) ((Bm.submatrix σ id) *ᵥ a) c → Bm *ᵥ c = Bm *ᵥ a := by
+  intro B Bm σ
+  have hB : c02ExampleBasis.WF c02ExampleBasis.size 2 := ⟨rfl, by decide⟩
+  have hr : 2 ≤ Module.finrank ℚ (Submodule.span ℚ
+      (Set.range fun a : Fin c02ExampleBasis.size => c02ExampleBasis.vec 2 a)) := by
+    apply finrank_rows_of_mulVec_injective
+    intro c c' h
+    have h0 := congrFun h ⟨0, by decide⟩
+    have h1 := congrFun h ⟨1, by decide⟩
+    simp [Matrix.mulVec, dotProduct, Fin.sum_univ_two, RMat.vec, RMat.get, c02ExampleBasis] at h0 h1
+    ext i
+    fin_cases i
+    · exact h0
+    · exact h1
+  exact ⟨by decide +kernel, by decide +kernel,
+    (qr_default_recon_exact_run c02ExampleBasis 2 hB hr 2 (le_refl _) (by decide)).2.2.2.1⟩
 
 end PsVerif
